@@ -47,7 +47,8 @@ func ident(b []byte) string {
 var decoders = map[string]*xw.Format{}
 
 func init() {
-	for _, f := range []*xw.Format{xw.WString, xw.Cert, xw.Intent, xw.Ag, xw.ConfDen, xw.Proxy, xw.Exec, xw.UserAuth, xw.Pf, relMsg} {
+	for _, f := range []*xw.Format{xw.WString, xw.Cert, xw.Intent, xw.Ag, xw.ConfDen, xw.Proxy, xw.Exec, xw.UserAuth, xw.Pf, relMsg,
+		xw.StatusMsg, xw.WinSizeMsg, xw.WinLoop, xw.UAReply, xw.ProxyID, xw.IntentReq, xw.IntentComm} {
 		decoders[f.Name] = f
 	}
 }
@@ -131,7 +132,9 @@ func bombs(name string) [][]byte {
 		return [][]byte{{0xff, 0xff}, {0xff, 0xff, 1}, {0x80, 0, 1, 2}}
 	case "wstring":
 		return [][]byte{{0xff}, {0xff, 1, 2}, {0x80}}
-	case "intent", "agmsg", "confden":
+	case "status":
+		return [][]byte{{2, 0xff, 0xff, 0xff, 0xff}, {2, 0xff, 0xff}, {0, 0xff, 0xff, 0, 0, 1}, {}, {2}}
+	case "intent", "agmsg", "confden", "intentreq", "intentcomm":
 		return [][]byte{{1, 3}, {2, 4}, {4, 0xff}, {1, 2, 0, 0, 0xff, 0xff, 0xff, 0xff, 0xff, 0xff, 0xff, 0xff}}
 	}
 	return nil
@@ -480,6 +483,10 @@ func main() {
 	r := hv.NewRand(hv.Seed())
 
 	// ---- part A
+	agNoSweep := *xw.Ag
+	if !hv.Thorough() {
+		agNoSweep.Sweep = nil
+	}
 	type plan struct {
 		f, gen       *xw.Format
 		nv, mut, rnd int
@@ -495,6 +502,15 @@ func main() {
 		{xw.UserAuth, xw.UserAuth, hv.Scale(16, 200), 6, hv.Scale(16, 160)},
 		{xw.Pf, xw.Pf, hv.Scale(24, 300), 7, hv.Scale(16, 160)},
 		{relMsg, xw.UserAuth, hv.Scale(10, 100), 5, hv.Scale(10, 100)},
+		// extension round (coq/Model/WireMore.v)
+		{xw.StatusMsg, xw.StatusMsg, hv.Scale(12, 200), 5, hv.Scale(10, 100)},
+		{xw.WinSizeMsg, xw.WinSizeMsg, hv.Scale(4, 60), 3, hv.Scale(5, 50)},
+		{xw.WinLoop, xw.WinSeq, hv.Scale(10, 100), 3, hv.Scale(6, 60)},
+		{xw.UAReply, xw.ReplyGen, hv.Scale(6, 60), 2, hv.Scale(5, 50)},
+		{xw.ProxyID, xw.ProxyID, hv.Scale(3, 30), 2, hv.Scale(3, 30)},
+		// the length-field sweep over AgMessages already runs through agmsg and confden (same ReadFrom underneath)
+		{xw.IntentReq, &agNoSweep, hv.Scale(10, 200), 5, hv.Scale(6, 60)},
+		{xw.IntentComm, &agNoSweep, hv.Scale(10, 200), 5, hv.Scale(6, 60)},
 	}
 	type meta struct {
 		f       *xw.Format
